@@ -64,6 +64,24 @@ elif cfg["scenario"] == "poseidon-first-import-inside-region":
     out["digests"] = digests
     out["state_clean"] = H.triple_clean()
 
+elif cfg["scenario"] == "real-backend-fxp-readback":
+    # the real nobackend / snarkjs module selected through the environment: val() of a fixed-point number is the
+    # represented number, whatever the backend's modulus (nobackend: a small placeholder)
+    os.environ["PYSNARK_BACKEND"] = cfg["backend"]
+    import pysnark.runtime as rt
+    rt.autoprove = False
+    from pysnark.fixedpoint import PrivValFxp, PubValFxp
+    out["backend_name"] = rt.backend_name
+    rows = []
+    for v in (0.5, 19.5, 20.0, 39.0625, -20.0, 100.25, -3.75):
+        for mk in ("priv", "pub", "computed"):
+            try:
+                x = PrivValFxp(v) if mk == "priv" else (PubValFxp(v) if mk == "pub" else PrivValFxp(v / 2) + PrivValFxp(v / 2))
+                rows.append({"v": v, "how": mk, "val": x.val()})
+            except Exception as ex:  # noqa: BLE001
+                rows.append({"v": v, "how": mk, "error": "%s: %s" % (type(ex).__name__, str(ex)[:80])})
+    out["rows"] = rows
+
 print("@@" + json.dumps(out))
 sys.stdout.flush()
 os._exit(0)
